@@ -292,7 +292,7 @@ func stateAt(p string, sec int64) byte {
 
 func genT(t *rapid.T) TCase {
 	nb := rapid.IntRange(1, 3).Draw(t, "nbase")
-	c := TCase{Asset: rapid.SampledFrom([]string{"testpic_2s", "testpic_8s"}).Draw(t, "asset"), Type: rapid.SampledFrom([]string{"number", "time", "tlnr"}).Draw(t, "type")}
+	c := TCase{Asset: rapid.SampledFrom([]string{"testpic_2s", "testpic_8s", "bbb_hevc_ac3_8s"}).Draw(t, "asset"), Type: rapid.SampledFrom([]string{"number", "time", "tlnr"}).Draw(t, "type")}
 	longest := 0
 	for b := 0; b < nb; b++ {
 		n := rapid.IntRange(1, 4).Draw(t, "len")
@@ -351,7 +351,13 @@ func checkT(c TCase, slow bool) (*hx.Violation, int) {
 	cfg.Type = c.Type
 	cfg.TsbdS = 60
 	parts := append(cfg.Parts(), "traffic_"+pattern)
-	rep := e.Asset.Reps["V300"]
+	rep := e.Asset.Ref // the video representation (its files may lie in a directory of their own or directly in the asset directory)
+	mpdName := ""
+	for n := range e.Asset.MPDs {
+		if mpdName == "" || n < mpdName {
+			mpdName = n
+		}
+	}
 	tl := refmodel.NewTimeline(e.Asset, rep, cfg)
 	for i, sec := range c.Seconds {
 		nowMS := sec*1000 + int64(i*137%1000)
@@ -365,7 +371,7 @@ func checkT(c TCase, slow bool) (*hx.Violation, int) {
 				variants = append(variants, append(append([]string{}, parts...), "periods_60"))
 			}
 			for _, vp := range variants {
-				mr := e.Srv.Get(ls.URL(vp, e.Asset.Path, "Manifest.mpd", nowMS))
+				mr := e.Srv.Get(ls.URL(vp, e.Asset.Path, mpdName, nowMS))
 				if mr.Code != 200 {
 					return hx.V("traffic-mpd", "MPD with %v -> %v", vp, mr), points
 				}
